@@ -5,7 +5,7 @@ import random
 import z3
 
 from pycaption import SCCReader
-from pycaption.scc.specialized_collections import CaptionCreator, PreCaption
+from pycaption.scc.specialized_collections import CaptionCreator, PreCaption, TimingCorrectingCaptionList
 from pyvc import heap
 from pyvc.heap import SymList, SymRef, declare, loop_rule, SEQ, INT, heap_array
 from pyvc.sym import cur
@@ -162,6 +162,10 @@ def bounded(ctx, b):
 def run(ctx):
     ctx.prove("scc.CaptionCreator.correct_last_timing", correct_last_timing, functions=[CaptionCreator.correct_last_timing],
               setup_interp=setup, crosscheck=False)
+    # a caption that was never ended (end 0: roll-up lines re-sent with their mode code, paint-on buffers) ends
+    # when the next one begins - whatever its own start, zero included
+    ctx.prove("scc.TimingCorrectingCaptionList._update_last_batch", C06.update_last_batch,
+              functions=[TimingCorrectingCaptionList._update_last_batch], setup_interp=setup, crosscheck=False)
     import props.C06_commands as CM
     CM.prove_commands(ctx)
     ctx.bounded("programs", "roll-up programs (depth 2-4, fixed and moving base rows incl. one row down / up per line, 1-8 "
